@@ -121,7 +121,9 @@ PROPS = {
                   "C08_lazy_values_are_applied_or_destroyed", "C08_insert_conserves", "C08_remove_conserves",
                   "C08_get_mut_conserves", "C08_drain_conserves", "C08_deleting_entities_conserves",
                   "C08_entry_api_conserves", "C08_clear_conserves", "C08_get_mut_or_default_conserves",
-                  "C08_every_storage_operation_conserves", "C08_a_join_hands_out_exactly_what_it_drained", "C08_history_conserves",
+                  "C08_every_storage_operation_conserves", "C08_a_join_hands_out_exactly_what_it_drained",
+                  "C08_default_filled_insert_conserves", "C08_default_filled_remove_conserves",
+                  "C08_default_filled_clear_destroys_every_cell_once", "C08_history_conserves",
                   "C08_everything_handed_back_or_destroyed_exactly_once"],
         required="spec",
         nontrivial="history moves at least five values in, hands at least one back, destroys at least one by deletion or "
